@@ -27,6 +27,13 @@ func init() {
 		sp.TapeCap = 400000
 		sp.Rule += "; every 37th run is a closed loop of the real commands (the command body of `kvass coordinator` with the real Prometheus discovery manager fed by a simulated SD mechanism, its forwarding loop and callback chain as wired in cmd/kvass/coordinator.go, plus real sidecar commands): after the last discovery change / reload the coordinator API's active-target list must be exactly what discovery and the loaded relabel rules say, and the explorer must have probed every discovered target"
 	}
+	if sp, err := core.Lookup("C20"); err == nil {
+		sp.Extra = func(tp *core.Tape, e *core.Env) { Run(tp, e, false) }
+		sp.ExtraEvery = 37
+		extend(sp)
+		sp.TapeCap = 400000
+		sp.Rule += "; every 37th run is a closed loop of the real commands (kvass coordinator command body with its explorer started and wired as in cmd/kvass/coordinator.go, real sidecar commands): every discovered target that no shard holds has been probed, a target failing since the start is probed again (retry), never two probes at once"
+	}
 	if sp, err := core.Lookup("C06"); err == nil {
 		sp.Extra = func(tp *core.Tape, e *core.Env) { Run(tp, e, true) }
 		sp.ExtraEvery = 7
